@@ -343,7 +343,7 @@ Definition x_cookie_states (u : N) : list wtoken :=
     with_flags (tok u bU2F) false false false true true 0;     (* alg none *)
     with_flags (tok u bU2F) true true true true true 0;        (* signature bit flipped *)
     with_flags (tok u bU2F) false false true false false 3 ].  (* no token at all *)
-(* (certificate, the user it names = the URL name of the request) *)
+(* (certificate, the URL name of the request = the user of the cookie that comes with it) *)
 Definition x_certs : list (option tlsinfo * N) :=
   [ (None, 1);
     (Some (cert true MainCA true 1 false false false false), 1);    (* keymaster certificate of alice *)
@@ -352,7 +352,11 @@ Definition x_certs : list (option tlsinfo * N) :=
     (Some (cert true MainCA true 3 false false false true), 3);     (* the same from outside: a keymaster certificate only *)
     (Some (cert true OtherCA false 1 false false false false), 1);  (* certificate of another client CA *)
     (Some (cert true RoleCA true 3 false false false true), 3);     (* automation certificate, peer outside *)
-    (Some (cert true MainCA true 1 true false false false), 1) ].   (* keymaster certificate, key on the deny list *)
+    (Some (cert true MainCA true 1 true false false false), 1);     (* keymaster certificate, key on the deny list *)
+    (* certificates whose common name is the empty string (subject 6), requests for alice *)
+    (Some (cert true MainCA true 6 false false false false), 1);    (* signed by the main CA: no identity, 403 *)
+    (Some (cert true RoleCA true 6 false false true true), 1);      (* role CA, peer inside, "" listed as automation user: on to the cookie *)
+    (Some (cert true MainCA true 6 false false true true), 1) ].    (* main CA with address extension, inside: on to the cookie *)
 Definition x_basics : list (option basic) := [None; Some (bas 1 true false); Some (bas 1 false false)].
 Definition x_other_user : N := 2.
 Definition x_combo (c : option tlsinfo * N) : list shape :=
@@ -421,7 +425,7 @@ Definition proved_levels (st : server) (now : Z) (q : certreq) (u : N) : list N 
   | None => []
   end ++
   match q_tls q with
-  | Some c => if c_cn c =? u then
+  | Some c => if (c_cn c =? u) && negb (bs_eqb (s_name st u) []) then
                 (if keymaster_cert_b c then [bKMX509] else []) ++ (if ip_cert_ok_b c then [bIPCert] else []) ++
                 (if keymaster_cert_b c && ip_cert_ok_b c then [N.lor bKMX509 bIPCert] else [])
               else []
